@@ -56,25 +56,38 @@ Take(seq, m) == SubSeq(seq, 1, IF Len(seq) < m THEN Len(seq) ELSE m)
 
 Init == st = [lvl |-> 0]
 Next == \/ st.lvl = 0 /\ st' \in [lvl : {1}, b : Bases]
-        \/ st.lvl = 1 /\ st' \in [lvl : {2}, b : {st.b}, fam : {"int", "bin", "drop"}, k : 1..Slices]
+        \/ st.lvl = 1 /\ st' \in [lvl : {2}, b : {st.b}, fam : {"int", "bin", "drop", "add"}, k : 1..Slices]
         \/ st.lvl = 1 /\ st' \in [lvl : {2}, b : {st.b}, fam : {"page", "body"}, k : 1..Len(BaseLeaves(st.b))]
         \/ st.lvl = 1 /\ st' \in [lvl : {2}, b : {st.b}, fam : {"base"}, k : {1}]
 
 FooterMuts(tree, fam, fsize) ==
     IF fam = "int" THEN
+        \* value-major order (all paths with -1, then all paths with 0, with 1, ...): a tier that takes only the head of each
+        \* slice still meets every integer field with the most hostile values
         LET ps == PathsOf(tree, <<>>, IntTypes, 3)
-        IN Flatten([i \in 1..Len(ps) |-> LET w == GetAt(tree, ps[i])
-                                          IN [j \in 1..Len(IntValues(w.v, fsize)) |->
-                                                [kind |-> "set", path |-> ps[i], val |-> [t |-> w.t, v |-> IntValues(w.v, fsize)[j]]]]])
+            vals(i) == IntValues(GetAt(tree, ps[i]).v, fsize)
+        IN Flatten([j \in 1..12 |->
+              LET idx == SelectSeq([i \in 1..Len(ps) |-> i], LAMBDA i : Len(vals(i)) >= j)
+              IN [k \in 1..Len(idx) |-> [kind |-> "set", path |-> ps[idx[k]],
+                                          val |-> [t |-> GetAt(tree, ps[idx[k]]).t, v |-> vals(idx[k])[j]]]]])
     ELSE IF fam = "bin" THEN
         LET ps == PathsOf(tree, <<>>, {"binary"}, 3)
         IN Flatten([i \in 1..Len(ps) |-> LET w == GetAt(tree, ps[i])
                                           IN [j \in 1..Len(BinValues(w.v)) |->
                                                 [kind |-> "set", path |-> ps[i], val |-> Bin(BinValues(w.v)[j])]]])
+    ELSE IF fam = "add" THEN
+        \* an integer field the struct does not carry (ids 1..12): optional fields a writer never sets (num_children of a
+        \* leaf, ...), and integers where the reader expects another type; value-major like "int"
+        LET ps == PathsOf(tree, <<>>, {"struct"}, 3)
+            absent(i) == SelectSeq([id \in 1..12 |-> id], LAMBDA id : ~HasField(GetAt(tree, ps[i]), id))
+            vs == <<Word(TRUE, 1), MaxI32, Zero(8)>>
+        IN Flatten([j \in 1..Len(vs) |-> Flatten([i \in 1..Len(ps) |->
+              [a \in 1..Len(absent(i)) |-> [kind |-> "add", path |-> ps[i], id |-> absent(i)[a], val |-> [t |-> "i32", v |-> vs[j]]]]])])
     ELSE LET ps == SelectSeq(PathsOf(tree, <<>>, IntTypes \cup {"binary", "struct", "list"}, 3), LAMBDA q : q # <<>>)
          IN [i \in 1..Len(ps) |-> [kind |-> "drop", path |-> ps[i], val |-> I(0)]]
 
-MutName(m) == ToString(m.kind) \o ToString(m.path) \o (IF m.kind = "set" /\ m.val.t # "binary" THEN ToString(m.val.v) ELSE IF m.kind = "set" THEN "bin" \o ToString(Len(m.val.v)) ELSE "")
+MutName(m) == ToString(m.kind) \o ToString(m.path) \o (IF m.kind = "set" /\ m.val.t # "binary" THEN ToString(m.val.v) ELSE IF m.kind = "set" THEN "bin" \o ToString(Len(m.val.v))
+                                                       ELSE IF m.kind = "add" THEN "id" \o ToString(m.id) \o ToString(m.val.v) ELSE "")
 
 Emit == st.lvl = 2 =>
     LET d == Desc(st.b, 0, 0, NoMut)
@@ -84,7 +97,7 @@ Emit == st.lvl = 2 =>
     IN IF st.fam = "base"
        THEN PrintT(ToJson([fam |-> "base", b |-> st.b, file |-> good, footerStart |-> 4 + Len(lay.bytes),
                            leaves |-> BaseLeaves(st.b), chunks |-> [c \in 1..Len(BaseLeaves(st.b)) |-> BaseCont(st.b, c)]]))
-       ELSE IF st.fam \in {"int", "bin", "drop"}
+       ELSE IF st.fam \in {"int", "bin", "drop", "add"}
        THEN LET ms == Take(SliceOf(FooterMuts(tree, st.fam, Len(good)), st.k, Slices), PerSlice)
             IN PrintT(ToJson([fam |-> st.fam, b |-> st.b, k |-> st.k, data |-> lay.bytes,
                               footers |-> [i \in 1..Len(ms) |-> [m |-> MutName(ms[i]), fb |-> FooterBytes(Apply(tree, ms[i]), d.sty)]]]))
